@@ -52,7 +52,7 @@ variable {K : Type} [Field K] [LinearOrder K] [IsStrictOrderedRing K]
 @[simp] theorem natLit_field (n : Nat) : (@OrdField.natLit K (OrdField.ofField K) n) = (n : K) := rfl
 theorem ofNat_field_cast (n : Nat) :
     (@OfNat.ofNat K n (@OrdField.instOfNat K (OrdField.ofField K) n)) = (n : K) := rfl
-@[simp] theorem ofNat_field (n : Nat) [n.AtLeastTwo] :
+theorem ofNat_field (n : Nat) [n.AtLeastTwo] :
     (@OfNat.ofNat K n (@OrdField.instOfNat K (OrdField.ofField K) n)) = (OfNat.ofNat n : K) := rfl
 @[simp] theorem ofNat_field_zero :
     (@OfNat.ofNat K 0 (@OrdField.instOfNat K (OrdField.ofField K) 0)) = (0 : K) := by
@@ -70,7 +70,7 @@ end field
 @[simp] theorem sabs_real (x : ℝ) : sabs x = |x| := sabs_field x
 
 /-! the same bridges for the instance path `Scalar ℝ → OrdField ℝ` (what models over `[Scalar α]` produce) -/
-@[simp] theorem ofNat_real (n : Nat) [n.AtLeastTwo] :
+theorem ofNat_real (n : Nat) [n.AtLeastTwo] :
     (@OfNat.ofNat ℝ n (@OrdField.instOfNat ℝ (@Scalar.toOrdField ℝ instScalarReal) n)) = (OfNat.ofNat n : ℝ) := rfl
 @[simp] theorem ofNat_real_zero :
     (@OfNat.ofNat ℝ 0 (@OrdField.instOfNat ℝ (@Scalar.toOrdField ℝ instScalarReal) 0)) = (0 : ℝ) :=
